@@ -15,7 +15,8 @@ RULE = ("1-4 real base.SlotChain objects per case assembled by Add*Slot from 0-9
         "ctx.RuleCheckResult, slot-owned reused result) with block types 0-255; prepare and rule slots may register exit handlers "
         "(ok / error / panic); rule results are produced by every public constructor / in-place reset family (see BLOCK_STYLES, PASSING in the module); "
         "any slot may record ctx.SetError / ctx.SetPair without panicking (+e/+k/+ek, read back with `ctx <e> err|pair`); stat slots may panic in OnEntryPassed / OnEntryBlocked / OnCompleted; then 3-25 api.Entry calls "
-        "with overlapping lifetimes, caller-registered exit handlers, exits in shuffled order incl. double exits, slots added to "
+        "with overlapping lifetimes, caller-registered exit handlers, exits in shuffled order incl. double exits and `exit2` (two Exit calls "
+        "overlapping deterministically), the virtual clock moved to 0 / 1 / huge / backwards in 40 % of cases, slots added to "
         "live chains, every kept *BlockError re-read after later traffic; slices: panic-free, block-heavy, panic-heavy, "
         "own-result aliasing hazard. non-trivial = a block error was re-read after at least one later entry reused a pooled context; "
         "distinct by (sorted chain shapes, outcome sequence)")
@@ -35,10 +36,11 @@ ORDER_POOLS = [
 #             bo slot-owned result re-armed with ResetToBlockedWithCause | bn NewTokenResult(ResultStatusBlocked) (no option) |
 #             bt NewTokenResult(ResultStatusBlocked, WithBlockType, WithRule) | bb NewTokenResultBlocked(type) |
 #             bm NewTokenResultBlockedWithMessage(type, msg) |
-#             br / bs ctx.RuleCheckResult.ResetToPass() then .ResetToBlocked(type) / .ResetToBlockedWithMessage(type, msg)
+#             br / bs ctx.RuleCheckResult.ResetToPass() then .ResetToBlocked(type) / .ResetToBlockedWithMessage(type, msg) |
+#             bd ctx.RuleCheckResult.DeepCopyFrom(NewTokenResultBlockedWithCause(...))
 #   passing:  pass NewTokenResultPass() | pass1 NewTokenResult(ResultStatusPass) | nil | wait/wait0 NewTokenResultShouldWait(>0/0) |
 #             wait1 NewTokenResult(ResultStatusShouldWait)
-BLOCK_STYLES = ["bf", "bc", "bo", "bn", "bt", "bb", "bm", "br", "bs"]
+BLOCK_STYLES = ["bf", "bc", "bo", "bn", "bt", "bb", "bm", "br", "bs", "bd"]
 PASSING = ["pass", "pass", "pass1", "nil", "nil", "wait", "wait0", "wait1"]
 
 
@@ -59,7 +61,7 @@ def gen_slot(rng, kind, sid, pool, prof):
     if kind == "r":
         r = rng.random()
         if r < prof["block"]:
-            st = rng.choices(BLOCK_STYLES, [3, 4, prof["own"], 2, 2, 2, 2, 1.5, 1.5])[0]
+            st = rng.choices(BLOCK_STYLES, [3, 4, prof["own"], 2, 2, 2, 2, 1.5, 1.5, 1.5])[0]
             typ = 0 if st == "bn" else rng.choice([0, 1, 2, 3, 4, 5, 5, 1, 2, 255, rng.randint(0, 255)])
             beh = f"{st}{typ}"
         elif r < prof["block"] + prof["rpanic"]:
@@ -150,7 +152,14 @@ def gen_case(rng, cid):
             ops += [f"add {name} {x}" for x in seq]
         chains.append((name, pool))
     live, blocked, eid = [], [], 0
+    # the clock is a free parameter of the harness: 40 % of cases move it (0, 1, small, huge, backwards between entry and exit)
+    clocky = rng.random() < 0.4
+    CLOCKS = [0, 0, 0, 1, 1, 2, 999, 1000, 1_900_000_000_000, 2**63, 2**64 - 1]
+    if clocky and rng.random() < 0.6:
+        ops.append(f"clock {rng.choice(CLOCKS)}")
     for _ in range(rng.randint(3, 25)):
+        if clocky and rng.random() < 0.3:
+            ops.append(f"clock {rng.choice(CLOCKS)}")
         r = rng.random()
         if r < 0.50 or not live and r < 0.8:
             eid += 1
@@ -168,7 +177,8 @@ def gen_case(rng, cid):
             e = rng.choice(live)
             if rng.random() < 0.85:
                 live.remove(e)
-            ops.append(f"exit {e}")
+            # exit2 = two overlapping Exit calls on the entry (deterministic overlap, see the interpreter)
+            ops.append(f"{'exit2' if rng.random() < 0.3 else 'exit'} {e}")
             ops.append("log")
         elif r < 0.88:
             name, pool = rng.choice(chains)
@@ -181,7 +191,9 @@ def gen_case(rng, cid):
     rng.shuffle(live)
     for e in live:
         if rng.random() < 0.8:
-            ops.append(f"exit {e}")
+            if clocky and rng.random() < 0.3:
+                ops.append(f"clock {rng.choice(CLOCKS)}")
+            ops.append(f"{'exit2' if rng.random() < 0.3 else 'exit'} {e}")
             ops.append("log")
     for i in range(1, eid + 1):
         ops.append(f"blockerr e{i}")
@@ -195,8 +207,8 @@ def fix_sequence(ops, results):
     skip_log = False
     for o in ops:
         t = o.split()
-        if t[0] in ("exit", "whenexit") and results.get(t[1]) == "block":
-            skip_log = t[0] == "exit"
+        if t[0] in ("exit", "exit2", "whenexit") and results.get(t[1]) == "block":
+            skip_log = t[0] in ("exit", "exit2")
             continue
         if t[0] == "blockerr" and results.get(t[1]) != "block":
             continue
@@ -267,7 +279,7 @@ def densify(ops, rng):
         if t[0] == "entry":
             seen.append(t[1])
             out.append("log")
-        elif t[0] == "exit":
+        elif t[0] in ("exit", "exit2"):
             out.append("log")
         if seen and rng.random() < 0.4:
             for e in rng.sample(seen, min(len(seen), 3)):
